@@ -12,6 +12,9 @@ def run(tier):
     rnd = common.rng("c02")
     full = tier == "thorough"
     cases = isa.gen_mem(full, rnd, per_class=None if full else 4000)
+    # far jmp / call through memory (m16:16, m16:32, m16:64) are memory-operand forms as well: the same base x index x scale x
+    # displacement shapes, with their own size keywords (C05 judges the branch side of them)
+    cases += isa.gen_far(rnd, full)
     # documented STRICT exception: [base+rsp] under swap=STRICT is encoded literally (index field = none)
     strict_cases = []
     for c in cases:
